@@ -111,15 +111,6 @@ def step (guard : Bool) (s : State) : Ev → State
 
 def run (guard : Bool) (s : State) (tr : List Ev) : State := tr.foldl (step guard) s
 
-/-- The notifications (listener / feed) produced along a trace, oldest first. -/
-def notifications (guard : Bool) : State → List Ev → List Head
-  | _, [] => []
-  | s, .tick fin :: tr =>
-    match (setL1Head guard s fin).2 with
-    | some h => h :: notifications guard (setL1Head guard s fin).1 tr
-    | none => notifications guard (setL1Head guard s fin).1 tr
-  | s, e :: tr => notifications guard (step guard s e) tr
-
 /-! ### start-up catch-up -/
 
 /-- `FilterStateUpdate(from, to)` of a provider whose log history is `hist` (chain order). -/
@@ -142,21 +133,23 @@ structure CatchUpOut where
   buf : Buf
   result : CatchUpResult
   queries : List (Nat × Nat)   -- the (from, to) arguments of the `FilterStateUpdate` calls, in order
+  applied : List SU            -- ghost: the values passed to `applyStateUpdate`, in order
   deriving Repr, Inhabited
 
 /-- The `for` loop of `catchUpL1HeadUpdates`. `failAt = some n`: the call number `n` (counting from
 0, `calls` so far) fails. -/
 def catchUpLoop (hist : List SU) (fin chunk : Nat) (failAt : Option Nat)
-    (to : Nat) (calls : Nat) (buf : Buf) (queries : List (Nat × Nat)) : CatchUpOut :=
-  if hc : chunk = 0 then ⟨buf, .hang, queries⟩ else
+    (to : Nat) (calls : Nat) (buf : Buf) (queries : List (Nat × Nat)) (applied : List SU) :
+    CatchUpOut :=
+  if hc : chunk = 0 then ⟨buf, .hang, queries, applied⟩ else
   let frm := chunkFrom to chunk
   let queries' := queries ++ [(frm, to)]
-  if failAt = some calls then ⟨buf, .failed, queries'⟩ else
+  if failAt = some calls then ⟨buf, .failed, queries', applied⟩ else
   let events := filterLogs hist frm to
   let buf' := events.foldl applyStateUpdate buf
   let found := events.any (fun ev => decide (ev.l1 ≤ fin))
-  if found || frm == 0 then ⟨buf', .complete, queries'⟩
-  else catchUpLoop hist fin chunk failAt (frm - 1) (calls + 1) buf' queries'
+  if found || frm == 0 then ⟨buf', .complete, queries', applied ++ events⟩
+  else catchUpLoop hist fin chunk failAt (frm - 1) (calls + 1) buf' queries' (applied ++ events)
 termination_by to
 decreasing_by
   have h1 := chunkFrom_le (to := to) hc
@@ -171,7 +164,7 @@ decreasing_by
 finalised height `fin₂` read again by `setL1Head` itself. -/
 def catchUp (guard : Bool) (s : State) (hist : List SU) (latest fin₁ chunk : Nat)
     (failAt : Option Nat) (fin₂ : Nat) : State × CatchUpOut × Option Head :=
-  let o := catchUpLoop hist fin₁ chunk failAt latest 0 s.buf []
+  let o := catchUpLoop hist fin₁ chunk failAt latest 0 s.buf [] []
   match o.result with
   | .complete =>
     let r := setL1Head guard ⟨o.buf, s.head⟩ fin₂
